@@ -79,6 +79,11 @@ def generate(prop, rng, tier):
     faulty = rng.random() >= 0.25
     p = rng.choice([0.02, 0.05, 0.15]) if faulty else 0.0
     decisions = _gen_decisions(rng, rng.choice([50, 300, 1500]), p) if faulty else []
+    if faulty and rng.random() < 0.4:
+        # exactly one fault, at a uniformly chosen raw-call position (the sampled counterpart of a
+        # systematic single-fault sweep: every position of the first ~120 raw calls gets its turn)
+        k = rng.randrange(0, rng.choice([12, 40, 120]))
+        decisions = [['ok']] * k + _gen_decisions(rng, 1, 1.0)
     e = gen.edges(wp)
     ops = []
     paths = ['/simfs/a.txt', '/simfs/b.txt', '/simfs/c.txt']
